@@ -614,6 +614,20 @@ class Module:
             out = [f for f in out if len(f.args) == nargs]
         return out
 
+    def sel(self, module, name, arg0=None, ret=None, nargs=None):
+        """The method `name` of an impl block in `module`, picked by its signature (first argument type / return
+        type regexes) rather than by the source line of the impl block."""
+        fs = [f for f in self.funcs if f.kind == "fn" and re.search(r"(^|[^\w])%s::<impl at [^>]*>::%s$" % (re.escape(module), re.escape(name)), f.name)]
+        if arg0 is not None:
+            fs = [f for f in fs if f.args and re.search(arg0, f.args[0][1])]
+        if ret is not None:
+            fs = [f for f in fs if re.search(ret, f.ret)]
+        if nargs is not None:
+            fs = [f for f in fs if len(f.args) == nargs]
+        if len(fs) != 1:
+            raise KeyError("expected exactly one %s::..::%s with arg0~%r ret~%r, found %d: %s" % (module, name, arg0, ret, len(fs), [f.name for f in fs][:4]))
+        return fs[0]
+
     def one(self, pattern, nargs=None):
         fs = self.find(pattern, nargs)
         if len(fs) != 1:
